@@ -375,6 +375,65 @@ theorem C09_model_meets_spec (cfg : Cfg) (a : Args W) (hside : noStoredReuse a =
   rw [C09_core_meets_spec _ cfg a C09_defaults_unsigned, C09_format_meets_spec_partial _ cfg a hside]
   rfl
 
+/-! ### configuration forms and sibling entry points -/
+
+/-- For every form whose meaning is not in doubt the code's reading (`load_special` + truthiness) is the
+    demanded one; in particular the documented textual forms. -/
+theorem C09_config_forms (v : CfgVal) (h : formDefined v = true) : loadBool v = cfgReading v := by
+  cases v with
+  | unset => rfl
+  | bool b => rfl
+  | int n => rfl
+  | str s =>
+    simp only [formDefined, Bool.or_eq_true, beq_iff_eq] at h
+    rcases h with ((h | h) | h) | h <;> subst h <;> decide
+
+theorem C09_config_textual_forms :
+    loadBool (.str "true") = some true ∧ loadBool (.str "false") = some false ∧
+    loadBool (.bool true) = some true ∧ loadBool (.bool false) = some false ∧ loadBool .unset = none := by decide
+
+/-- The sibling entry points are `create_authn_response` on the forwarded arguments, and forwarding is
+    the identity when the parameters they do not forward are at their defaults. -/
+theorem C09_sibling_entry_points (d : Defaults) (cfg : Cfg) (a : Args W) :
+    createVia .authnResponse d cfg a = create d cfg a ∧
+    createVia .authnRequestResponse d cfg a = create d cfg (forward .authnRequestResponse a) ∧
+    (a.farg = none → a.status = none → a.releasePolicy = none → forward .authnRequestResponse a = a) ∧
+    (a.farg = none → a.status = none → a.releasePolicy = none → a.sessionNooa = none → forward .ecp a = a) ∧
+    (∀ r, createVia .ecp d cfg a = .ok r → create d cfg (forward .ecp a) = .ok r ∧ isSigned r = false) := by
+  refine ⟨?_, ?_, ?_, ?_, ?_⟩
+  · unfold createVia forward
+    cases create d cfg a <;> simp
+  · unfold createVia
+    cases create d cfg (forward .authnRequestResponse a) <;> simp
+  · intro h1 h2 h3
+    cases a; simp_all [forward]
+  · intro h1 h2 h3 h4
+    cases a; simp_all [forward]
+  · intro r h
+    unfold createVia at h
+    cases hc : create d cfg (forward .ecp a) with
+    | error x => simp [hc] at h
+    | ok r' =>
+      simp only [hc] at h
+      cases hs : isSigned r' with
+      | true => simp [hs] at h
+      | false => simp [hs] at h; exact ⟨by rw [h], by rw [← h]; exact hs⟩
+
+/-- Whatever an entry point returns satisfies the scoping clauses for the arguments it forwards. -/
+theorem C09_entry_points_meet_spec (e : Entry) (d : Defaults) (cfg : Cfg) (a : Args W)
+    (hd : d.signResponse = false ∧ d.signAssertion = false) :
+    specCore d cfg (forward e a) (createVia e d cfg a) = true := by
+  have h := C09_core_meets_spec d cfg (forward e a) hd
+  unfold createVia
+  cases hc : create d cfg (forward e a) with
+  | error x => rfl
+  | ok r =>
+    rw [hc] at h
+    simp only []
+    by_cases hs : (e == Entry.ecp && isSigned r) = true
+    · rw [if_pos hs]; rfl
+    · rw [if_neg hs]; exact h
+
 /-! ### end to end -/
 
 /-- SECOND SENTENCE.  Whatever Response the IdP model creates, a service provider built from the same
@@ -521,6 +580,12 @@ example : (match create exD exCfg { exArgs with farg := some { method := some "b
 example : e2ePre exD exCfg { exArgs with farg := some { recipient := some "https://else/acs" } } exSide = false := by decide
 example : (match create exD exCfg { exArgs with farg := some { method := some "hok" } } with
            | .error e => some e | .ok _ => none) = some .hokNoKeyInfo := by decide
+-- entry points: the request-response sibling gives the same Response; ECP refuses a signed one, wraps an unsigned one
+example : (match createVia .ecp exD exCfg exArgs with | .error e => some e | .ok _ => none) = some .ecpSignedNotElement := by
+  decide
+example : (match createVia .ecp exD { exCfg with signAssertion := none } { exArgs with signResponse := none } with
+           | .ok r => !isSigned r | .error _ => false) = true := by decide
+example : formDefined (.str "False") = false ∧ loadBool (.str "False") = some true := by decide
 -- the side condition of the partial format theorem is satisfiable and not trivial
 example : noStoredReuse exArgs = true := by decide
 example : noStoredReuse { exArgs with stored := [{ format := some "transient", spNameQualifier := some "sp", text := "T" }] } = false := by
